@@ -27,8 +27,19 @@ bool prop_run(Tape &t, Report &r) {
   for (int m = 0; m < nmut; m++) {
     int kind = t.weighted({6, 2, 2, 2, 2, 1, 1});
     if (kind == 0 && !setf.empty()) {   // a setup-header field set to a boundary value
-      const vs::Field &f = setf[t.spread((uint32_t)setf.size())]; uint64_t maxv = f.bits >= 64 ? ~0ull : ((1ull << f.bits) - 1); uint64_t v;
-      switch (t.below(6)) { case 0: v = 0; break; case 1: v = 1; break; case 2: v = maxv; break; case 3: v = maxv - 1; break; case 4: v = maxv / 2 + 1; break; default: v = ((uint64_t)t.raw() << 16 ^ t.raw()) & maxv; }
+      // gen 3: half of the field mutations choose the KIND of field first (codebook dimension, floor 1 post, residue begin, ...) so that the rare
+      // kinds are hit as often as the thousands of codeword lengths, and may copy or nudge the value of a sibling field (duplicates, off-by-one)
+      size_t fi = 0; int sel = 0;
+      if (g_tape_gen >= 3 && t.chance(1, 2)) {
+        int cats[32], nc = 0; bool seen[32] = {false}; for (auto &ff : setf) if (ff.cat > 0 && ff.cat < 32 && !seen[ff.cat]) { seen[ff.cat] = true; cats[nc++] = ff.cat; }
+        int cat = cats[t.below((uint32_t)nc)]; std::vector<size_t> idx; for (size_t q = 0; q < setf.size(); q++) if (setf[q].cat == cat) idx.push_back(q);
+        fi = idx[t.spread((uint32_t)idx.size())]; sel = (int)t.below(10); md += sfmt("cat%d:", cat);
+        if (sel >= 6) { const vs::Field &f0 = setf[fi]; uint64_t mv = f0.bits >= 64 ? ~0ull : ((1ull << f0.bits) - 1), v0;
+          if (sel == 6) v0 = setf[idx[t.spread((uint32_t)idx.size())]].val; else if (sel == 7) v0 = f0.val + 1; else if (sel == 8) v0 = f0.val - 1; else { static const uint64_t odd[] = {62, 63, 64, 100, 255, 256, 4096, 2, 3, 7, 8, 9}; v0 = odd[t.below(12)]; }
+          v0 &= mv; vs::patch_field(s.hdr[2].data, f0, v0); md += sfmt("setup[bit %zu,%d]=%llu ", f0.pos, f0.bits, (unsigned long long)v0); continue; }
+      } else fi = t.spread((uint32_t)setf.size());
+      const vs::Field &f = setf[fi]; uint64_t maxv = f.bits >= 64 ? ~0ull : ((1ull << f.bits) - 1); uint64_t v;
+      switch (sel ? sel : (int)t.below(6)) { case 0: v = 0; break; case 1: v = 1; break; case 2: v = maxv; break; case 3: v = maxv - 1; break; case 4: v = maxv / 2 + 1; break; default: v = ((uint64_t)t.raw() << 16 ^ t.raw()) & maxv; }
       vs::patch_field(s.hdr[2].data, f, v); md += sfmt("setup[bit %zu,%d]=%llu ", f.pos, f.bits, (unsigned long long)v);
     } else if (kind == 1 && !idf.empty()) { const vs::Field &f = idf[t.below((uint32_t)idf.size())]; uint64_t maxv = (1ull << f.bits) - 1; static const uint64_t vals[] = {0, 1, 5, 6, 13, 14, 15, 255, 256, 0x7fffffff, 0xffffffffull}; uint64_t v = vals[t.below(11)] & maxv; vs::patch_field(s.hdr[0].data, f, v); md += sfmt("id[bit %zu,%d]=%llu ", f.pos, f.bits, (unsigned long long)v); }
     else if (kind == 2) { int h = (int)t.below(3); auto &dd = s.hdr[h].data; if (!dd.empty()) { dd.resize(t.spread((uint32_t)dd.size() + 1)); md += sfmt("hdr%d truncated to %zu ", h, dd.size()); } }
